@@ -867,6 +867,53 @@ def cmp_mat(name, M, exact, mags, dexact, k):
     return None
 
 
+def check_matrix(name, s_, rows, cols, exact, mags, ex, K):
+    """a matrix-valued function: (pattern, values), alpaqa's conversion to dense and its conversion to
+    COO must each denote the exact matrix.  → list of (message, key).  The open finding (a FULL
+    pattern labelled Symmetry::Upper) excuses exactly that label: the values are then compared reading
+    the pattern as plain (unsymmetric) storage."""
+    out = []
+    parts = dict((p_.partition('=')[0].strip(), p_.partition('=')[2].strip()) for p_ in s_.split(' ; '))
+
+    def pattern_values(what, pat, vals):
+        r = denote(f'{name}{what}', pat, vals, rows, cols)
+        if r[1] and len(r) > 2 and r[2] == KEY_FULL_UPPER:
+            out.append((r[1], r[2]))
+            r = denote(f'{name}{what}', pat[:3] + ('U',) + pat[4:], vals, rows, cols)
+        if r[1]:
+            out.append((r[1], None))
+            return
+        e = cmp_mat(f'{name}{what}', r[0], exact, mags, ex, K)
+        if e:
+            out.append((e, None))
+    try:
+        for field in ('sp', 'vals', 'dense', 'coo'):
+            v_ = parts.get(field, 'exc:missing')
+            if v_.startswith('exc:') and not (field == 'dense' and 'below_the_diagonal' in v_):
+                return out + [(f'{name}: {field} threw {v_[:150]}', None)]
+        pat = parse_pattern(T(parts['sp']))
+        pattern_values(' (pattern + values)', pat, T(parts['vals']).vec())
+        if parts['dense'].startswith('exc:'):
+            # alpaqa's own converter refuses the pattern it was handed by the problem class
+            out.append((f'{name}: conversion to dense threw {parts["dense"][:150]}', KEY_FULL_UPPER))
+        else:
+            o = T(parts['dense'])
+            o.tok()
+            dv = o.vec()
+            if len(dv) != rows * cols or not all(math.isfinite(a) for a in dv):
+                out.append((f'{name}: conversion to dense gives {len(dv)} values / non-finite entries', None))
+            else:
+                M = [[Fr(dv[c * rows + r]) for c in range(cols)] for r in range(rows)]
+                e = cmp_mat(f'{name} (alpaqa conversion to dense)', M, exact, mags, ex, K)
+                if e:
+                    out.append((e, None))
+        cs, _, cv = parts['coo'].partition(' v ')
+        pattern_values(' (alpaqa conversion to COO)', parse_pattern(T(cs)), T(cv).vec())
+    except (IndexError, ValueError, KeyError) as e:
+        out.append((f'{name}: unreadable output `{s_[:100]}` ({e!r})', None))
+    return out
+
+
 def split_sections(out):
     secs = {}
     for part in out.split(' | '):
@@ -968,53 +1015,13 @@ def casadi_monitor(op, out, st):
         if s_ is None:
             res.append((f'{mod}.{name}: section missing', None))
             continue
-        parts = dict((p_.partition('=')[0].strip(), p_.partition('=')[2].strip()) for p_ in s_.split(' ; '))
-        bad = None
-        try:
-            for field in ('sp', 'vals', 'dense', 'coo'):
-                if parts.get(field, 'exc:missing').startswith('exc:'):
-                    if rows == 0 and field != 'sp':
-                        continue
-                    bad = (f'{mod}.{name}: {field} threw {parts.get(field, "")[:150]}',
-                           KEY_FULL_UPPER if 'below_the_diagonal' in parts.get(field, '') else None)
-                    break
-            if bad is None:
-                pat = parse_pattern(T(parts['sp']))
-                vals = T(parts['vals']).vec()
-                r = denote(f'{mod}.{name}', pat, vals, rows, cols)
-                if r[1]:
-                    bad = (r[1], r[2] if len(r) > 2 else None)
-                else:
-                    e = cmp_mat(f'{mod}.{name} (pattern + values)', r[0], exact, mags, ex, K)
-                    if e:
-                        bad = (e, None)
-            if bad is None and rows > 0:
-                o = T(parts['dense'])
-                sym = o.tok()
-                dv = o.vec()
-                if len(dv) != rows * cols or not all(math.isfinite(a) for a in dv):
-                    bad = (f'{mod}.{name}: conversion to dense gives {len(dv)} values / non-finite entries', None)
-                else:
-                    M = [[Fr(dv[c * rows + r]) for c in range(cols)] for r in range(rows)]
-                    e = cmp_mat(f'{mod}.{name} (alpaqa conversion to dense)', M, exact, mags, ex, K)
-                    if e:
-                        bad = (e, None)
-            if bad is None and rows > 0:
-                cs, _, cv = parts['coo'].partition(' v ')
-                pat = parse_pattern(T(cs))
-                r = denote(f'{mod}.{name} (alpaqa conversion to COO)', pat, T(cv).vec(), rows, cols)
-                if r[1]:
-                    bad = (r[1], r[2] if len(r) > 2 else None)
-                else:
-                    e = cmp_mat(f'{mod}.{name} (alpaqa conversion to COO)', r[0], exact, mags, ex, K)
-                    if e:
-                        bad = (e, None)
-        except (IndexError, ValueError, KeyError) as e:
-            bad = (f'{mod}.{name}: unreadable output `{s_[:100]}` ({e!r})', None)
-        if bad:
-            res.append(bad)
-        else:
+        found = check_matrix(f'{mod}.{name}', s_, rows, cols, exact, mags, ex, K)
+        res += found
+        if not found:
             cnt(cells, (mod, name))
+        elif all(k_ == KEY_FULL_UPPER for _, k_ in found):
+            cnt(exempt, f'{mod}.{name}: full pattern labelled Symmetry::Upper (open finding); values compared '
+                        f'reading the pattern as plain storage')
     return res
 
 
@@ -1083,7 +1090,7 @@ def casadi_stage(rep, broken, exe, tier, mods):
         broken.append('CasADi route: module or harness missing')
         return
     rng = random.Random(C.seed() * 977 + 5)
-    ops = gen_cas_ops(rng, 400 if tier == 'quick' else 4000)
+    ops = gen_cas_ops(rng, 1000 if tier == 'quick' else 6000)
     outs, rc, err = C.run_lines(exe, ops)
     if rc != 0 or len(outs) != len(ops):
         broken.append(f'CasADi route: harness failed (rc={rc}) {err[-300:]}')
@@ -1119,9 +1126,13 @@ def casadi_stage(rep, broken, exe, tier, mods):
     for m_ in CAS_MODULES:
         for f_ in CAS_FUNCS:
             if cells.get((m_, f_), 0) == 0:
-                if f_ in ('grad_g_prod', 'gfggp') and 'grad_g_prod' not in st['symbols'][m_] and KEY_NO_GGP in known_open:
+                # a cell may be empty only because a reproduced open finding covers it, and then the
+                # (narrower) exempted comparison must have run
+                exempted = any(k_.startswith(f'{m_}.{f_}:') for k_ in st.get('exempt', {}))
+                if f_ in ('grad_g_prod', 'gfggp') and 'grad_g_prod' not in st['symbols'][m_] and \
+                        KEY_NO_GGP in known_open and exempted:
                     continue
-                if f_ in ('hess_L', 'hess_psi') and KEY_FULL_UPPER in known_open and m_ == 'rosen':
+                if f_ in ('hess_L', 'hess_psi') and KEY_FULL_UPPER in known_open and exempted:
                     continue
                 if bad == 0:
                     broken.append(f'required coverage: CasADi module {m_}, function {f_} was never compared')
